@@ -94,6 +94,8 @@ type RouteSpec struct {
 	PkgConst string     `json:"pkgconst"`
 	Prefix   string     `json:"prefix"` // prefix filter to apply ("" = none)
 	Decoys   bool       `json:"decoys"`
+	// SecondInner: a second imported package that is also named inner (v2/inner) provides one more handler
+	SecondInner bool `json:"second_inner,omitempty"`
 }
 
 // ExpParam / ExpEndpoint: the expected extraction result.
@@ -316,6 +318,10 @@ func GenRoutes(t *rapid.T, o *RouteOpts) *RouteSpec {
 		rs.Routes = append(rs.Routes, r)
 	}
 	rs.Decoys = rapid.Bool().Draw(t, "decoys")
+	rs.SecondInner = rapid.IntRange(0, 2).Draw(t, "secondInner") == 0
+	if rs.SecondInner {
+		o.class("routes:two_handler_packages_with_one_name")
+	}
 	// prefix filter: none, a prefix of some URL, or a non matching one
 	switch rapid.IntRange(0, 3).Draw(t, "prefixKind") {
 	case 0:
@@ -425,6 +431,10 @@ func (rs *RouteSpec) Expected(prefix string) []ExpEndpoint {
 			e.Return, e.Blob = "[]byte", true
 		}
 		out = append(out, e)
+	}
+	if rs.SecondInner && (prefix == "" || strings.HasPrefix("/v2/ping", prefix)) {
+		ty := rs.rootPath() + "/v2/inner.Second"
+		out = append(out, ExpEndpoint{Verb: "POST", URL: "/v2/ping", Handler: "PingV2", Input: ty, Return: ty})
 	}
 	return out
 }
@@ -629,9 +639,16 @@ func (Echo) Use(string)                          {}
 	}
 	in.WriteString("// a decoy with the same name as handlers of the main package\nfunc (Controller) list(echo.Context) error { return nil }\n")
 	files[routeRootName+"/inner/inner.go"] = in.String()
+	if rs.SecondInner {
+		files[routeRootName+"/v2/inner/inner.go"] = "// Package inner (v2) shares its name with the other imported handler package.\npackage inner\n\nimport (\n\t\"" + echoPath + "\"\n)\n\ntype Second struct {\n\tCode int\n\tNote string\n}\n\nfunc PingV2(c echo.Context) error {\n\tvar in Second\n\tif err := c.Bind(&in); err != nil {\n\t\treturn err\n\t}\n\treturn c.JSON(200, in)\n}\n"
+	}
 
 	var sb strings.Builder
-	sb.WriteString("package " + rs.Pkg + "\n\nimport (\n\t\"mime/multipart\"\n\n\t\"" + echoPath + "\"\n\t\"" + rs.rootPath() + "/inner\"\n)\n\n")
+	second := ""
+	if rs.SecondInner {
+		second = "\tinner2 \"" + rs.rootPath() + "/v2/inner\"\n"
+	}
+	sb.WriteString("package " + rs.Pkg + "\n\nimport (\n\t\"mime/multipart\"\n\n\t\"" + echoPath + "\"\n\t\"" + rs.rootPath() + "/inner\"\n" + second + ")\n\n")
 	sb.WriteString("var _ *multipart.FileHeader\n\n")
 	sb.WriteString(fmt.Sprintf("const routePrefix = %q\n\n", rs.PkgConst))
 	for _, ty := range rs.Types {
@@ -729,6 +746,9 @@ var _ = helperLog
 		}
 		sb.WriteString(fmt.Sprintf("\te.%s(%s, %s)\n", r.Verb, strings.Join(parts, "+"), handler))
 	}
+	if rs.SecondInner {
+		sb.WriteString("\te.POST(\"/v2/ping\", inner2.PingV2)\n")
+	}
 	sb.WriteString("}\n")
 	files[routeRootName+"/routes.go"] = sb.String()
 	return files
@@ -755,9 +775,13 @@ func (rs *RouteSpec) Text() string {
 func (rs *RouteSpec) Spec() *Spec {
 	fs := rs.Files()
 	root := rs.rootPath()
-	return &Spec{Pkgs: []*Pkg{
+	sp := &Spec{Pkgs: []*Pkg{
 		{Name: rs.Pkg, Path: root, Files: []*File{{Name: "routes.go", Src: fs[routeRootName+"/routes.go"]}}},
 		{Name: "echo", Path: root + "/echo", Files: []*File{{Name: "echo.go", Src: fs[routeRootName+"/echo/echo.go"]}}},
 		{Name: "inner", Path: root + "/inner", Files: []*File{{Name: "inner.go", Src: fs[routeRootName+"/inner/inner.go"]}}},
 	}}
+	if rs.SecondInner {
+		sp.Pkgs = append(sp.Pkgs, &Pkg{Name: "inner", Path: root + "/v2/inner", Files: []*File{{Name: "inner.go", Src: fs[routeRootName+"/v2/inner/inner.go"]}}})
+	}
+	return sp
 }
